@@ -18,10 +18,16 @@ Lemma set_handle_handle w h : handle_of (set_handle w h) = h. Proof. reflexivity
 
 (* the fields that no operation touches *)
 Definition same_env (w w' : world) : Prop :=
-  defmode w' = defmode w /\ locked w' = locked w /\ close_fault w' = close_fault w.
+  defmode w' = defmode w /\ locked w' = locked w /\ close_fault w' = close_fault w /\ ncat w' = ncat w.
 Lemma same_env_refl w : same_env w w. Proof. repeat split. Qed.
 Lemma same_env_trans a b c : same_env a b -> same_env b c -> same_env a c.
-Proof. intros (A1 & A2 & A3) (B1 & B2 & B3). repeat split; congruence. Qed.
+Proof. intros (A1 & A2 & A3 & A4) (B1 & B2 & B3 & B4). repeat split; congruence. Qed.
+(* same handle, same file, same environment (only the repack flag may differ) *)
+Definition same_core (w w' : world) : Prop :=
+  handle_of w' = handle_of w /\ file w' = file w /\ same_env w w'.
+Lemma same_core_refl w : same_core w w. Proof. repeat split. Qed.
+Lemma same_core_trans a b c : same_core a b -> same_core b c -> same_core a c.
+Proof. intros (A1 & A2 & A3) (B1 & B2 & B3). split; [congruence|]. split; [congruence|]. eapply same_env_trans; eauto. Qed.
 
 (* append-only file *)
 Definition extends (w w' : world) : Prop := exists t, file w' = file w ++ t.
@@ -41,9 +47,7 @@ Proof.
   destruct (writable (c_req c) && mode_eqb m R); [discriminate|].
   destruct (c_fails c); [discriminate|].
   intros E; inversion E; subst; clear E.
-  destruct (c_writer c); simpl.
-  - repeat split; auto.
-  - rewrite app_nil_r. repeat split; auto.
+  destruct (c_writer c), (c_repack c); simpl; rewrite ?app_nil_r; repeat split; auto.
 Qed.
 
 Lemma io_calls_inv cs : forall w,
@@ -62,7 +66,8 @@ Qed.
 (* on a read-only handle gated calls never change the world; a call that asks for a writable mode is refused *)
 Lemma io_call_R w c :
   handle_of w = Open R -> gated_call c = true ->
-  io_call w c = (if writable (c_req c) then Err EReadOnly else if c_fails c then Err EFail else Ok w).
+  io_call w c = (if writable (c_req c) then Err EReadOnly else if c_fails c then Err EFail
+                 else Ok (if c_repack c then set_repack w true else w)).
 Proof.
   intros H G. unfold io_call. rewrite H. simpl. rewrite andb_true_r.
   destruct (writable (c_req c)) eqn:W; [reflexivity|].
@@ -71,12 +76,15 @@ Proof.
 Qed.
 
 Lemma io_calls_R cs : forall w,
-  handle_of w = Open R -> forallb gated_call cs = true -> fst (io_calls w cs) = w.
+  handle_of w = Open R -> forallb gated_call cs = true -> same_core w (fst (io_calls w cs)).
 Proof.
-  induction cs as [|c r IH]; intros w H G; simpl; [reflexivity|].
+  induction cs as [|c r IH]; intros w H G; simpl; [apply same_core_refl|].
   simpl in G. apply andb_true_iff in G as [G1 G2].
   rewrite (io_call_R w c H G1).
-  destruct (writable (c_req c)); [reflexivity|]. destruct (c_fails c); [reflexivity|]. apply IH; assumption.
+  destruct (writable (c_req c)); [apply same_core_refl|]. destruct (c_fails c); [apply same_core_refl|].
+  destruct (c_repack c).
+  - eapply same_core_trans; [|apply IH; [exact H | exact G2]]. repeat split.
+  - apply IH; assumption.
 Qed.
 
 Lemma io_calls_R_refused cs : forall w,
@@ -90,7 +98,7 @@ Proof.
   destruct (writable (c_req c)) eqn:W; [reflexivity|].
   apply negb_true_iff in T1. rewrite T1.
   unfold gated_call in G1. rewrite W, orb_false_r in G1. apply negb_true_iff in G1. rewrite G1 in X. simpl in X.
-  apply IH; assumption.
+  destruct (c_repack c); apply IH; assumption.
 Qed.
 
 Lemma io_calls_closed cs w :
@@ -106,13 +114,12 @@ Proof.
   induction cs as [|c r IH]; intros w m H W T; simpl.
   - rewrite app_nil_r. auto.
   - simpl in T. apply andb_true_iff in T as [T1 T2]. apply negb_true_iff in T1.
-    unfold io_call. rewrite H, (writable_not_R m W), andb_false_r, T1.
-    destruct (c_writer c) eqn:CW.
-    + destruct (IH (log w (c_fn c)) m H W T2) as (A & B & C). simpl in *.
-      split; [exact A|]. split; [|exact C]. rewrite B. unfold writer_log. simpl. rewrite CW. simpl.
-      rewrite <- app_assoc. reflexivity.
-    + destruct (IH w m H W T2) as (A & B & C). split; [exact A|]. split; [|exact C].
-      rewrite B. unfold writer_log. simpl. rewrite CW. reflexivity.
+    destruct (io_call w c) as [w1|e] eqn:E.
+    + destruct (io_call_inv w c w1 E) as (H1 & _ & F1).
+      assert (H1' : handle_of w1 = Open m) by congruence.
+      destruct (IH w1 m H1' W T2) as (A & B & D). split; [exact A|]. split; [|exact D].
+      rewrite B, F1. unfold writer_log. simpl. destruct (c_writer c); simpl; rewrite <- ?app_assoc; reflexivity.
+    + exfalso. unfold io_call in E. rewrite H, (writable_not_R m W), andb_false_r, T1 in E. discriminate.
 Qed.
 
 (* reader-only call lists never change the file, whatever the handle *)
@@ -126,8 +133,17 @@ Proof.
 Qed.
 
 (* ------------------------------------------------------------------ close / open *)
-Lemma repeat_remove_dead_total n : forallb (fun c => negb (c_fails c)) (repeat remove_dead n) = true.
-Proof. induction n; simpl; auto. Qed.
+Lemma close_calls_total dead w :
+  close_fault w = false -> forallb (fun c => negb (c_fails c)) (close_calls dead w) = true.
+Proof.
+  intros CF. unfold close_calls. rewrite !forallb_app. simpl. rewrite CF. simpl.
+  assert (A : forallb (fun c => negb (c_fails c)) (repeat remove_dead dead) = true) by (induction dead; simpl; auto).
+  rewrite A. simpl. rewrite andb_true_r. destruct (repack w); [|reflexivity].
+  induction (ncat w); simpl; auto.
+Qed.
+
+Lemma extends_set_repack w b : extends w (set_repack w b).
+Proof. exists []. simpl. rewrite app_nil_r. reflexivity. Qed.
 
 Lemma close_closes dead w :
   close_fault w = false ->
@@ -137,17 +153,14 @@ Proof.
   intros CF. unfold close_n. destruct (handle_of w) eqn:H.
   - simpl. rewrite H. repeat split; auto. apply extends_refl.
   - destruct (writable m) eqn:W.
-    + set (cs := repeat remove_dead dead ++ _).
-      assert (T : forallb (fun c => negb (c_fails c)) cs = true).
-      { unfold cs. rewrite forallb_app, repeat_remove_dead_total. simpl. rewrite CF. reflexivity. }
-      destruct (io_calls_writable cs w m H W T) as (A & B & C).
-      destruct (io_calls_inv cs w) as (_ & E & X).
-      destruct (io_calls w cs) as [w' e]. simpl in *. subst e. simpl.
-      split; [reflexivity|]. split; [reflexivity|]. split; [exact E|]. exact X.
-    + simpl. repeat split; auto. apply extends_set_handle.
+    + destruct (io_calls_writable (close_calls dead w) w m H W (close_calls_total dead w CF)) as (A & B & D).
+      destruct (io_calls_inv (close_calls dead w) w) as (_ & E & X).
+      destruct (io_calls w (close_calls dead w)) as [w' e]. cbn [fst snd] in *. subst e. cbn [fst snd].
+      split; [reflexivity|]. split; [reflexivity|]. split; [exact E|]. destruct X as [t X]. exists t. exact X.
+    + cbn [fst snd]. split; [reflexivity|]. split; [reflexivity|]. split; [repeat split|]. exists []. simpl. rewrite app_nil_r. reflexivity.
 Qed.
 
-Lemma close_R w : handle_of w = Open R -> close w = (set_handle w Closed, None).
+Lemma close_R w : handle_of w = Open R -> close w = (set_repack (set_handle w Closed) false, None).
 Proof. intros H. unfold close, close_n. rewrite H. reflexivity. Qed.
 
 Lemma close_Closed w : handle_of w = Closed -> close w = (w, None).
@@ -158,11 +171,11 @@ Proof.
   unfold close, close_n. destruct (handle_of w) eqn:H.
   - split; [apply same_env_refl | apply extends_refl].
   - destruct (writable m).
-    + match goal with |- context [io_calls w ?cs] =>
-        destruct (io_calls_inv cs w) as (_ & E & X); destruct (io_calls w cs) as [w' [e|]] end; cbn [fst snd] in *.
+    + destruct (io_calls_inv (close_calls 0 w) w) as (_ & E & X).
+      destruct (io_calls w (close_calls 0 w)) as [w' [e|]]; cbn [fst snd] in *.
       * auto.
       * split; [exact E|]. destruct X as [t X]. exists t. exact X.
-    + split; [repeat split | apply extends_set_handle].
+    + split; [repeat split |]. exists []. simpl. rewrite app_nil_r. reflexivity.
 Qed.
 
 Lemma open_inv m w : same_env w (fst (open_ m w)) /\ file (fst (open_ m w)) = file w /\ snd (open_ m w) = None.
@@ -213,12 +226,17 @@ Proof.
   - rewrite (close_Closed w H). simpl. repeat split; auto.
 Qed.
 
+Lemma ro_core w w' : ro w -> same_core w w' -> ro w' /\ file w' = file w.
+Proof.
+  intros [[H|H] D] (A & B & (C & _)); (split; [split; [|congruence] | exact B]); [left | right]; congruence.
+Qed.
+
 Lemma io_calls_ro cs w :
-  ro w -> forallb gated_call cs = true -> fst (io_calls w cs) = w.
+  ro w -> forallb gated_call cs = true -> same_core w (fst (io_calls w cs)).
 Proof.
   intros [[H|H] D] G.
   - apply io_calls_R; assumption.
-  - rewrite (io_calls_closed cs w H). reflexivity.
+  - rewrite (io_calls_closed cs w H). apply same_core_refl.
 Qed.
 
 Lemma fetch_active_R_ro body w :
@@ -226,27 +244,28 @@ Lemma fetch_active_R_ro body w :
   ro (fst (fetch_active R body w)) /\ file (fst (fetch_active R body w)) = file w.
 Proof.
   intros RO G. pose proof RO as [[H|H] D]; unfold fetch_active; rewrite H.
-  - simpl. rewrite (io_calls_ro body w RO G). auto.
+  - simpl. apply (ro_core w); [exact RO | apply io_calls_ro; assumption].
   - destruct (open_ro (Some R) w RO eq_refl) as (RO2 & F2 & H2). specialize (H2 H).
     pose proof (open_inv (Some R) w) as (_ & _ & N).
-    destruct (open_ (Some R) w) as [w2 e2]. simpl in *. subst e2. simpl.
+    destruct (open_ (Some R) w) as [w2 e2]. cbn [fst snd] in *. subst e2. cbn [seq].
     unfold finally_close. rewrite (surjective_pairing (io_calls w2 body)).
-    rewrite (io_calls_ro body w2 RO2 G).
-    destruct (close_ro w2 RO2) as (RO3 & F3 & N3 & _).
-    destruct (close w2) as [w3 e3]. simpl in *. subst e3. simpl. split; [exact RO3 | congruence].
+    destruct (ro_core w2 _ RO2 (io_calls_ro body w2 RO2 G)) as (RO3 & F3).
+    destruct (close_ro _ RO3) as (RO4 & F4 & N4 & _).
+    destruct (close (fst (io_calls w2 body))) as [w4 e4]. cbn [fst snd] in *. subst e4. cbn [fst].
+    split; [exact RO4 | congruence].
 Qed.
 
 Lemma step_ro w o :
   ro w -> safe o -> ro (fst (step w o)) /\ file (fst (step w o)) = file w.
 Proof.
   intros RO [NR G]. destruct o; simpl in *.
-  - unfold op_gated in G. simpl in G. rewrite (io_calls_ro cs w RO G). auto.
-  - unfold op_gated in G. simpl in G. rewrite (io_calls_ro _ w RO G). auto.
+  - unfold op_gated in G. simpl in G. apply (ro_core w); [exact RO | apply io_calls_ro; assumption].
+  - unfold op_gated in G. simpl in G. apply (ro_core w); [exact RO | apply io_calls_ro; assumption].
   - destruct (close_ro w RO) as (A & B & _). auto.
   - destruct (open_ro m w RO) as (A & B & _); [destruct m as [x|]; [apply negb_true_iff; rewrite NR; reflexivity | exact I]|].
     auto.
   - apply negb_false_iff, mode_eqb_eq in NR. subst req. apply fetch_active_R_ro; assumption.
-  - destruct (close_ro w RO) as (A & B & N & _). destruct (close w) as [w1 e1]. simpl in *. subst e1. simpl.
+  - destruct (close_ro w RO) as (A & B & N & _). destruct (close w) as [w1 e1]. cbn [fst snd] in *. subst e1. cbn [seq].
     destruct (open_ro None w1 A I) as (A2 & B2 & _). split; [exact A2 | congruence].
   - auto.
   - apply fetch_active_R_ro; assumption.
@@ -270,6 +289,22 @@ Proof.
 Qed.
 
 (* the outcome of a writing operation on a read-only (or closed) workspace *)
+Lemma fetch_active_R_closed_refused body w :
+  ro w -> handle_of w = Closed -> forallb gated_call body = true -> existsb c_writer body = true ->
+  forallb (fun c => negb (c_fails c)) body = true ->
+  snd (fetch_active R body w) = Some EReadOnly.
+Proof.
+  intros RO H G Wr T. unfold fetch_active. rewrite H.
+  destruct (open_ro (Some R) w RO eq_refl) as (RO2 & F2 & H2). specialize (H2 H).
+  pose proof (open_inv (Some R) w) as (_ & _ & N).
+  destruct (open_ (Some R) w) as [w2 e2]. cbn [fst snd] in *. subst e2. cbn [seq].
+  unfold finally_close. rewrite (surjective_pairing (io_calls w2 body)).
+  rewrite (io_calls_R_refused body w2 H2 G Wr T).
+  destruct (ro_core w2 _ RO2 (io_calls_ro body w2 RO2 G)) as (RO3 & _).
+  destruct (close_ro _ RO3) as (_ & _ & N3 & _).
+  destruct (close (fst (io_calls w2 body))) as [w3 e3]. cbn [fst snd] in *. subst e3. reflexivity.
+Qed.
+
 Lemma step_refused w o :
   ro w -> safe o -> writes o = true -> op_total o = true -> snd (step w o) = Some (expected_refusal w o).
 Proof.
@@ -282,20 +317,8 @@ Proof.
   - unfold fetch_active. rewrite H. simpl. apply io_calls_R_refused; assumption.
   - rewrite (io_calls_closed cs w H). destruct cs; [discriminate | reflexivity].
   - rewrite (io_calls_closed _ w H). destruct dead; [discriminate | reflexivity].
-  - apply negb_false_iff, mode_eqb_eq in NR. subst req. unfold fetch_active. rewrite H.
-    destruct (open_ro (Some R) w RO eq_refl) as (RO2 & F2 & H2). specialize (H2 H).
-    pose proof (open_inv (Some R) w) as (_ & _ & N).
-    destruct (open_ (Some R) w) as [w2 e2]. simpl in *. subst e2. simpl.
-    unfold finally_close. rewrite (surjective_pairing (io_calls w2 body)).
-    rewrite (io_calls_R_refused body w2 H2 G Wr T), (io_calls_ro body w2 RO2 G).
-    destruct (close_ro w2 RO2) as (_ & _ & N3 & _). destruct (close w2) as [w3 e3]. simpl in *. subst e3. reflexivity.
-  - unfold fetch_active. rewrite H.
-    destruct (open_ro (Some R) w RO eq_refl) as (RO2 & F2 & H2). specialize (H2 H).
-    pose proof (open_inv (Some R) w) as (_ & _ & N).
-    destruct (open_ (Some R) w) as [w2 e2]. simpl in *. subst e2. simpl.
-    unfold finally_close. rewrite (surjective_pairing (io_calls w2 body)).
-    rewrite (io_calls_R_refused body w2 H2 G Wr T), (io_calls_ro body w2 RO2 G).
-    destruct (close_ro w2 RO2) as (_ & _ & N3 & _). destruct (close w2) as [w3 e3]. simpl in *. subst e3. reflexivity.
+  - apply negb_false_iff, mode_eqb_eq in NR. subst req. apply fetch_active_R_closed_refused; assumption.
+  - apply fetch_active_R_closed_refused; assumption.
 Qed.
 
 Theorem readonly_no_write_proof : forall ops w,
@@ -311,27 +334,29 @@ Proof.
 Qed.
 
 (* helpers *)
-Definition path2workspace_run (f : list string) (lk cf : bool) : world * option err :=
-  seq (open_ None {| handle_of := Closed; defmode := R; file := f; locked := lk; close_fault := cf |}) close.
+Definition path2workspace_run (f : list string) (lk cf : bool) (nc : nat) : world * option err :=
+  seq (open_ None {| handle_of := Closed; defmode := R; file := f; locked := lk; close_fault := cf; repack := false; ncat := nc |}) close.
 
-Lemma path2workspace_readonly f lk cf :
-  let w0 := {| handle_of := Closed; defmode := R; file := f; locked := lk; close_fault := cf |} in
+Lemma path2workspace_readonly f lk cf nc :
+  let w0 := {| handle_of := Closed; defmode := R; file := f; locked := lk; close_fault := cf; repack := false; ncat := nc |} in
   handle_of (fst (open_ None w0)) = Open R
-  /\ path2workspace_run f lk cf = (w0, None).
+  /\ path2workspace_run f lk cf nc = (w0, None).
 Proof. simpl. split; reflexivity. Qed.
 
 Lemma monitored_copy_closed body w :
-  handle_of w = Closed -> close_fault w = false -> forallb gated_call body = true ->
+  handle_of w = Closed -> forallb gated_call body = true ->
   handle_of (fst (open_ (Some R) w)) = Open R
   /\ file (fst (step w (MonitoredCopy body))) = file w
   /\ handle_of (fst (step w (MonitoredCopy body))) = Closed.
 Proof.
-  intros H CF G. split; [unfold open_; rewrite H; reflexivity|].
+  intros H G. split; [unfold open_; rewrite H; reflexivity|].
   simpl. unfold fetch_active. rewrite H. unfold open_. rewrite H. simpl.
   set (w2 := set_handle w (Open R)).
   assert (H2 : handle_of w2 = Open R) by reflexivity.
   unfold finally_close. rewrite (surjective_pairing (io_calls w2 body)).
-  rewrite (io_calls_R body w2 H2 G). rewrite (close_R w2 H2). simpl. auto.
+  destruct (io_calls_R body w2 H2 G) as (A & B & _).
+  assert (H3 : handle_of (fst (io_calls w2 body)) = Open R) by congruence.
+  rewrite (close_R _ H3). simpl. split; [rewrite B; reflexivity | reflexivity].
 Qed.
 
 Lemma monitored_copy_open_readers body w m :
@@ -416,7 +441,7 @@ Theorem exit_always_closes_proof : forall ops k w,
   handle_of (fst (with_block ops k w)) = Closed.
 Proof.
   intros ops k w CF. unfold with_block.
-  destruct (run_block_inv (firstn k ops) w) as ((_ & _ & E) & _).
+  destruct (run_block_inv (firstn k ops) w) as ((_ & _ & E & _) & _).
   destruct (run_block (firstn k ops) w) as [w1 e1]. simpl in E.
   assert (CF1 : close_fault w1 = false) by congruence.
   destruct (close_closes 0 w1 CF1) as (H & N & _). fold close in H, N.
@@ -428,7 +453,7 @@ Theorem exit_propagates_proof : forall ops k w,
   close_fault w = false -> k < List.length ops -> snd (with_block ops k w) <> None.
 Proof.
   intros ops k w CF L. unfold with_block.
-  destruct (run_block_inv (firstn k ops) w) as ((_ & _ & E) & _).
+  destruct (run_block_inv (firstn k ops) w) as ((_ & _ & E & _) & _).
   destruct (run_block (firstn k ops) w) as [w1 e1]. simpl in E.
   assert (CF1 : close_fault w1 = false) by congruence.
   destruct (close_closes 0 w1 CF1) as (_ & N & _). fold close in N.
@@ -448,10 +473,10 @@ Qed.
 (* the model's close is not exception safe: when the final save raises, the handle stays open (not a property theorem:
    an error inside close is outside C11's quantifier; stated so that the behaviour is on record and tied to the code) *)
 Lemma close_fault_leaks : forall w m,
-  handle_of w = Open m -> writable m = true -> close_fault w = true ->
+  handle_of w = Open m -> writable m = true -> close_fault w = true -> repack w = false ->
   handle_of (fst (with_block [] 0 w)) = Open m /\ snd (with_block [] 0 w) = Some EFail.
 Proof.
-  intros w m H W CF. unfold with_block. simpl. unfold close, close_n. rewrite H, W. simpl.
+  intros w m H W CF RP. unfold with_block. simpl. unfold close, close_n, close_calls. rewrite H, W, RP. simpl.
   unfold io_call. rewrite H, (writable_not_R m W), CF. simpl. auto.
 Qed.
 
@@ -492,7 +517,7 @@ Proof.
     induction cs as [|c r IH] in w2, H2 |- *; intros T RD; simpl; [reflexivity|].
     simpl in T, RD. apply andb_true_iff in T as [T1 T2]. apply andb_true_iff in RD as [R1 R2].
     apply negb_true_iff in T1, R1. unfold io_call. rewrite H2, R1, T1. simpl.
-    destruct (c_writer c); apply IH; auto.
+    destruct (c_writer c), (c_repack c); apply IH; auto.
 Qed.
 
 (* a block of plain operations on a writable workspace: everything that completed before the exit is in the file, in order,
@@ -522,19 +547,39 @@ Proof.
   simpl in H. apply andb_true_iff in H as [H1 H2]. rewrite H1. simpl. auto.
 Qed.
 
+Lemma writer_log_app a b : writer_log (a ++ b) = writer_log a ++ writer_log b.
+Proof. unfold writer_log. rewrite filter_app, map_app. reflexivity. Qed.
+
+Definition is_refresh (f : string) : Prop := f = "H5Writer.update_field" \/ f = "H5Writer.clear_stats_cache".
+
+Lemma refresh_log n : Forall is_refresh (writer_log (List.concat (repeat refresh_cat n))).
+Proof.
+  induction n; simpl; [constructor|]. unfold writer_log in *. simpl.
+  constructor; [left; reflexivity|]. constructor; [right; reflexivity|]. exact IHn.
+Qed.
+
 Theorem completed_ops_persist_proof : forall ops k w m,
   handle_of w = Open m -> writable m = true -> close_fault w = false ->
   forallb is_calls ops = true -> forallb op_total ops = true ->
-  file (fst (with_block ops k w))
-    = file w ++ List.concat (map (fun o => writer_log (calls_of o)) (firstn k ops)) ++ ["H5Writer.save_entity"]
+  (exists refresh, Forall is_refresh refresh /\
+     file (fst (with_block ops k w))
+       = file w ++ List.concat (map (fun o => writer_log (calls_of o)) (firstn k ops)) ++ refresh ++ ["H5Writer.save_entity"])
   /\ snd (with_block ops k w) = (if Nat.ltb k (List.length ops) then Some EInjected else None).
 Proof.
   intros ops k w m H W CF C T. unfold with_block.
   destruct (run_block_calls (firstn k ops) w m H W (forallb_firstn _ _ k C) (forallb_firstn _ _ k T)) as (A & B & D).
-  destruct (run_block_inv (firstn k ops) w) as ((_ & _ & E) & _).
-  destruct (run_block (firstn k ops) w) as [w1 e1]. simpl in *. subst e1.
-  unfold close, close_n. rewrite D, W. simpl. unfold io_call. rewrite D, (writable_not_R m W), E, CF. simpl.
-  split; [|reflexivity]. rewrite B, <- app_assoc. reflexivity.
+  destruct (run_block_inv (firstn k ops) w) as ((_ & _ & E & _) & _).
+  destruct (run_block (firstn k ops) w) as [w1 e1]. cbn [fst snd] in *. subst e1.
+  assert (CF1 : close_fault w1 = false) by congruence.
+  unfold close, close_n. rewrite D, W.
+  destruct (io_calls_writable (close_calls 0 w1) w1 m D W (close_calls_total 0 w1 CF1)) as (A2 & B2 & D2).
+  destruct (io_calls w1 (close_calls 0 w1)) as [w2 e2]. cbn [fst snd] in *. subst e2. cbn [fst snd].
+  split; [|reflexivity].
+  exists (writer_log (if repack w1 then List.concat (repeat refresh_cat (ncat w1)) else [])).
+  split.
+  - destruct (repack w1); [apply refresh_log | constructor].
+  - simpl. rewrite B2, B. unfold close_calls. simpl. rewrite writer_log_app. unfold writer_log at 2. simpl.
+    rewrite CF1. rewrite <- !app_assoc. reflexivity.
 Qed.
 
 (* ------------------------------------------------------------------ table lemma *)
